@@ -36,7 +36,11 @@ const (
 	tyName
 	tyFunc
 	tyTuple
-	tyErr // Go `error`: nil ↦ none, fmt.Errorf("literal") ↦ some "literal"
+	tyErr     // Go `error`: nil ↦ none, fmt.Errorf("literal") ↦ some "literal"
+	tyOpaque  // result of an effect call (file handle, error): only usable through a parameter matched by text
+	tyTrace   // the trace of modelled effects (translate_effects.go)
+	tyRecList // parameter: a list of records of which the function reads the listed fields
+	tyRec     // loop variable over such a list
 )
 
 type trParam struct {
@@ -45,6 +49,16 @@ type trParam struct {
 	leanTy string
 	ty     trTy // type of the expression (for functions: of the result)
 	isFunc bool
+	// isState: a receiver field the function also ASSIGNS (`self.hasBeenRun = true`): a variable of the
+	// term whose initial value is this parameter; delivered through `voidOuts`
+	isState bool
+	// fields of the records of a tyRecList parameter, in the order of the components of the Lean tuple
+	fields []trField
+}
+
+type trField struct {
+	name string
+	ty   trTy
 }
 
 type trTarget struct {
@@ -69,6 +83,13 @@ type trTarget struct {
 	resLean    string            // … and its Lean type, e.g. "Int → Int" for the function after fuel
 	doc        string
 	deflt      string
+	// modelled effects (translate_effects.go)
+	traceTy   string     // "" / "events" (List String) / "bytes" (List elem): type of the trace
+	effects   []trEffect // calls that append to the trace
+	skipArgs  []string   // arguments (text) of a writeFn effect that are not passed on (the writer itself)
+	dropStmts []string   // statements (text prefixes) that are ignored like logging
+	void      bool       // function without result: every `return` and the end deliver (trace, voidOuts…)
+	voidOuts  []string   // … these variables (Lean names of isState parameters / Go locals)
 }
 
 type trCtx struct {
@@ -84,6 +105,11 @@ type trCtx struct {
 
 	allowLoopReturn bool
 	strVars         map[string]bool // Go variables of type `string` (range yields runes)
+
+	assignCount map[string]int         // how often a Go variable has been assigned so far (text-matched parameters)
+	allowBreak  bool                   // while the state of a loop is computed: `break` is not an error
+	loopBreak   func() (string, error) // inside a loop with `break`: the state with the flag set
+	recOf       map[string]*trParam    // loop variables over a tyRecList parameter
 }
 
 var leanReserved = map[string]bool{"at": true, "end": true, "from": true, "have": true, "show": true, "then": true, "else": true,
@@ -189,9 +215,14 @@ func (c *trCtx) typeOf(e ast.Expr) trTy {
 		return tyByte
 	case *ast.SliceExpr:
 		return tyStr
+	case *ast.SelectorExpr:
+		if _, t, ok := c.recField(x); ok {
+			return t
+		}
+		return tyUnknown
 	case *ast.CallExpr:
 		switch exprText(c.fset, x.Fun) {
-		case "int", "int64", "int32", "uint", "uint64", "rune", "len", "float64", "float32":
+		case "int", "int64", "int32", "rune", "len", "float64", "float32", "max", "min":
 			return tyInt
 		case "byte", "uint8":
 			return tyByte
@@ -213,6 +244,9 @@ func (c *trCtx) typeOf(e ast.Expr) trTy {
 func (c *trCtx) expr(e ast.Expr, want trTy) (string, trTy, error) {
 	text := exprText(c.fset, e)
 	if p := c.param(text); p != nil && !p.isFunc {
+		if err := c.paramStillMeansTheSame(p, e); err != nil {
+			return "", 0, err
+		}
 		return p.lean, p.ty, nil
 	}
 	switch x := e.(type) {
@@ -248,6 +282,9 @@ func (c *trCtx) expr(e ast.Expr, want trTy) (string, trTy, error) {
 			return x.Name, tyBool, nil
 		}
 		if t, ok := c.vars[x.Name]; ok {
+			if t == tyOpaque || t == tyRec || t == tyTrace {
+				return "", 0, trErr("%s (result of an effect / a record) can only be used through a parameter of the target", x.Name)
+			}
 			return leanIdent(x.Name), t, nil
 		}
 		for _, n := range c.t.nameConsts {
@@ -269,6 +306,9 @@ func (c *trCtx) expr(e ast.Expr, want trTy) (string, trTy, error) {
 	case *ast.SelectorExpr:
 		if v, ok := c.t.intConsts[text]; ok {
 			s, t := intLit(v, want)
+			return s, t, nil
+		}
+		if s, t, ok := c.recField(x); ok {
 			return s, t, nil
 		}
 		return "", 0, trErr("selector %s is not a parameter of the target", text)
@@ -424,9 +464,20 @@ func (c *trCtx) binary(x *ast.BinaryExpr, want trTy) (string, trTy, error) {
 		switch x.Op {
 		case token.ADD, token.SUB, token.MUL:
 			return "(" + a + " " + x.Op.String() + " " + b + ")", tyByte, nil
-		case token.SHR:
-			return "(" + a + " >>> " + b + ")", tyByte, nil
-		case token.SHL:
+		case token.SHR, token.SHL:
+			// Lean's UInt8 shifts take the count mod 8, Go shifts everything out: only literal counts < 8
+			lit, ok := x.Y.(*ast.BasicLit)
+			if n, err := strconv.ParseInt(func() string {
+				if ok {
+					return lit.Value
+				}
+				return "x"
+			}(), 0, 64); !ok || lit.Kind != token.INT || err != nil || n < 0 || n >= 8 {
+				return "", 0, trErr("byte shift %s: the count must be an integer literal < 8", exprText(c.fset, x))
+			}
+			if x.Op == token.SHR {
+				return "(" + a + " >>> " + b + ")", tyByte, nil
+			}
 			return "(" + a + " <<< " + b + ")", tyByte, nil
 		case token.AND:
 			return "(" + a + " &&& " + b + ")", tyByte, nil
@@ -442,7 +493,9 @@ func (c *trCtx) call(x *ast.CallExpr, want trTy) (string, trTy, error) {
 	text := exprText(c.fset, x)
 	args := x.Args
 	switch fn {
-	case "int", "int64", "int32", "uint", "uint64", "rune", "float64", "float32":
+	case "uint", "uint64", "uint32", "uint16", "uintptr":
+		return "", 0, trErr("unsigned arithmetic (%s) is outside the subset: Int does not wrap around", text)
+	case "int", "int64", "int32", "rune", "float64", "float32":
 		// integer conversions are the identity on Int; a float conversion is only legal
 		// around / inside a call of an abstracted (parameter) function, where the parameter
 		// stands for the integer function  n ↦ int(f(float64(n)))
@@ -487,6 +540,22 @@ func (c *trCtx) call(x *ast.CallExpr, want trTy) (string, trTy, error) {
 			return "", 0, trErr("conversion %s of a non-string", text)
 		}
 		return s, tyStr, nil
+	case "max", "min":
+		if len(args) != 2 {
+			return "", 0, trErr("%s with %d arguments", fn, len(args))
+		}
+		a, at, err := c.expr(args[0], tyInt)
+		if err != nil {
+			return "", 0, err
+		}
+		b, bt, err := c.expr(args[1], tyInt)
+		if err != nil {
+			return "", 0, err
+		}
+		if at != tyInt || bt != tyInt {
+			return "", 0, trErr("%s of non-integers in %s", fn, text)
+		}
+		return "(" + fn + " " + a + " " + b + ")", tyInt, nil
 	case "len":
 		s, t, err := c.expr(args[0], tyStr)
 		if err != nil {
